@@ -125,15 +125,33 @@ def check_file(data, path, raw_timestamps=False, max_bad=3):
 
 
 def cuts_for(layout, tier):
-    """Cut offsets inside the last segment's raw data (truncated final chunk variants)."""
+    """Cut offsets inside the last segment's final chunk: the end of every value of the target channel
+    (truncated final chunk holding 0..n-1 values), one byte into the following value, and mid-chunk."""
     last = layout[-1]
     if last['chunks'] == 0:
         return []
     lo, hi = last['chunk_starts'][-1], last['end']
-    if tier == 'quick':
-        mid = (lo + hi) // 2
-        return sorted(set(c for c in (mid, hi - 1) if lo < c < hi))
-    return sorted(set(c for c in range(lo + 1, hi) if (c - lo) % 2 == 1 or (hi - c) <= 2))
+    cuts = set([(lo + hi) // 2, hi - 1])
+    ext = [e for e in last['extents'].get(F.A, []) if e[0] == last['chunks'] - 1]
+    n = 0
+    for p_, i_ in last['data_objs']:
+        if p_ == F.A:
+            n = i_['n']
+    if ext and n:
+        _c, a0, a1 = ext[0]
+        w = (a1 - a0) // n
+        for k in range(0, n):
+            cuts.add(a0 + k * w)
+            cuts.add(a0 + k * w + 1)
+    elif last['interleaved'] or last['daqmx']:
+        rows = n or 1
+        w = max(1, (hi - lo) // rows)
+        for k in range(0, rows):
+            cuts.add(lo + k * w)
+            cuts.add(lo + k * w + 1)
+    if tier == 'thorough':
+        cuts.update(c for c in range(lo + 1, hi) if (c - lo) % 3 == 1)
+    return sorted(c for c in cuts if lo < c < hi)
 
 
 def run_file(item):
